@@ -323,3 +323,244 @@ Section Step.
         -- apply fb_push; [exact F2|]. unfold tnH1. cbn [snd]. exact HY.
   Qed.
 End Step.
+
+(* ---- the state invariant ------------------------------------------------------------------------------------------------ *)
+Definition st_nest (st : pstate) : Prop :=
+  exists a b, t_span (st_current st) = Some (a, b)
+              /\ tnestH a (st_root st) = true /\ tnestH a (st_current st) = true
+              /\ t_dotted (st_current st) = false /\ t_implicit (st_current st) = false.
+
+Lemma st_nest_new : st_nest state_new.
+Proof. exists 0%N, 0%N. cbn. auto. Qed.
+Lemma st_nest_on_ws st sp : st_nest st -> st_nest (on_ws st sp).
+Proof. intros H. exact H. Qed.
+
+Lemma map_key_span_set_leaf path k d : map key_span (path ++ [set_leaf k d]) = map key_span (path ++ [k]).
+Proof. rewrite !map_app. reflexivity. Qed.
+
+Lemma on_keyval_sp_nest p c mid av e st path k val st' :
+  st_in p st -> st_nest st -> (p <= c)%N ->
+  kchain c mid (path ++ [k]) -> value_span val = Some (av, e) -> (mid <= av)%N -> (av <= e)%N -> vnest val = true ->
+  on_keyval_sp st path k (IValue val) = COk st' -> st_nest st'.
+Proof.
+  intros (a0 & b0 & S0 & I1 & I2 & _) (a & b & S & Hr & Hc & Hd & Hi) Lc Hch Sv L1 L2 Hval E.
+  rewrite S in S0. inversion S0; subst a0 b0. clear S0. pose proof (chain_le _ _ _ Hch) as Cle.
+  unfold on_keyval_sp in E. destruct (on_keyval st path k (IValue val)) as [st1| |] eqn:R; try discriminate E.
+  inversion E; subst st'. clear E. unfold on_keyval in R. cbv zeta in R. cbn [item_span] in R. rewrite S, Sv in R. cbn [fst snd] in R.
+  set (k' := set_leaf k _) in *. set (pe := match path with [] => true | _ => false end) in *.
+  set (cur1 := t_set_span (st_current st) (Some (a, e))) in *.
+  match type of R with context [with_table_at cur1 path true ?f] => change f with (okf k' val pe) in R end.
+  destruct (with_table_at cur1 path true (okf k' val pe)) as [[cur' u]| |] eqn:W; try discriminate R. inversion R; subst st1. clear R.
+  cbn [st_root st_current st_trailing st_position st_is_array st_path]. unfold item_end. cbn [item_span]. rewrite Sv. cbn [snd].
+  destruct (wta_flags _ _ _ _ _ _ (okf_flags k' val pe) W) as [Fd Fi]. pose proof (wta_span _ _ _ _ _ _ (okf_span k' val pe) W) as Fs.
+  subst cur1. rewrite span_set_span in Fs. rewrite dotted_set_span in Fd. rewrite implicit_set_span in Fi.
+  destruct (sds_props path cur' (Some e)) as (P1 & P2 & P3).
+  exists a, e. rewrite P1, P2, P3, Fs, Fd, Fi. repeat split; auto.
+  rewrite <- (set_span_same cur'), Fs.
+  eapply (okf_sds_nest a k' val pe mid av e Sv L1 L2 Hval path _ (Some (a, e)) c); [| | | | |exact W].
+  - rewrite set_span_set_span. eapply tnestH_widen; [| |exact Hc|exact S]; lia.
+  - unfold kchain. subst k'. rewrite map_key_span_set_leaf. exact Hch.
+  - intros _ x y Exy. inversion Exy; subst. lia.
+  - intros _. rewrite implicit_set_span. exact Hi.
+  - subst pe. destruct path; [congruence|reflexivity].
+Qed.
+
+(* ---- descend_path for headers (dotted = false) --------------------------------------------------------------------------- *)
+Lemma tnH1_mono h h' sp kv : (h <= h')%N -> tnH1 h sp kv = true -> tnH1 h' sp kv = true.
+Proof.
+  intros Hle. unfold tnH1. destruct (snd kv) as [|v|sub|ts asp]; auto; [apply tnestH_mono, Hle|].
+  intro H. apply andb4 in H as (A1 & A2 & A3 & A4). apply andb4. repeat split; auto.
+  - unfold aot_end_ok in *. destruct asp; [lia|reflexivity].
+  - revert A4. apply forallb_Forall_imp. apply Forall_forall. intros t _. apply tnestH_mono, Hle.
+Qed.
+Lemma tnH1_novalue h sp sp' kv : is_value (snd kv) = false -> tnH1 h sp kv = tnH1 h sp' kv.
+Proof. unfold tnH1. destruct (snd kv); [reflexivity|discriminate|reflexivity|reflexivity]. Qed.
+
+Lemma map_span_rev_last (last last' : tbl) rinit :
+  t_span last' = t_span last -> map t_span (rev (last' :: rinit)) = map t_span (rev (last :: rinit)).
+Proof. intro H. cbn [rev]. rewrite !map_app. cbn [map]. rewrite H. reflexivity. Qed.
+
+Definition wpost (h : N) {X} (Q : X -> Prop) (t : tbl) : tbl -> X -> Prop :=
+  fun t' x => tnestH h t' = true /\ t_span t' = t_span t /\ t_dotted t' = t_dotted t /\ Q x.
+
+Lemma wta_nest h h' {X} (Q : X -> Prop) : (h <= h')%N ->
+  forall path t (f : tbl -> cres (tbl * X)),
+  tnestH h t = true ->
+  (forall p, tnestH h p = true -> cres_post (wpost h' Q p) (f p)) ->
+  cres_post (wpost h' Q t) (with_table_at t path false f).
+Proof.
+  intros Hle. induction path as [|k ptl IH]; intros t f Ht Hf; cbn [with_table_at]; [apply Hf, Ht|].
+  pose proof (tnestH_mono h h' Hle t Ht) as Ht'. rewrite tnestH_unfold in Ht, Ht'.
+  apply andb_true_iff in Ht as [F1 F2]. apply andb_true_iff in Ht' as [F1' F2'].
+  destruct (kv_get (t_items t) (k_key k)) as [[k0 it]|] eqn:G.
+  - pose proof (fb_get _ _ _ _ _ F2 G) as Hit. destruct it as [|v|sub|ts asp]; try exact I.
+    + cbn [andb]. unfold tnH1 in Hit; cbn [snd] in Hit. specialize (IH sub f Hit Hf).
+      destruct (with_table_at sub ptl false f) as [[sub' x]| |]; try exact I. destruct IH as (N1 & N2 & N3 & N4).
+      cbn [cres_post]. unfold wpost. rewrite span_set_items, dotted_set_items. repeat split; auto.
+      rewrite tnestH_set_items. apply andb_true_iff. split.
+      * eapply tflags_keep; [exact F1'|]. intro Nv. eapply no_values_set; eauto.
+      * eapply fb_set; [exact F2'|exact G|]. unfold tnH1; cbn [snd]. exact N1.
+    + cbn [andb]. destruct (rev ts) as [|last rinit] eqn:Rv; [exact I|].
+      unfold tnH1 in Hit; cbn [snd] in Hit. apply andb4 in Hit as (A1 & A2 & A3 & A4).
+      assert (Hl : tnestH h last = true /\ forallb (tnestH h) rinit = true).
+      { rewrite <- forallb_rev, Rv in A4. cbn [forallb] in A4. apply andb_true_iff in A4. exact A4. }
+      destruct Hl as [Hl Hri]. specialize (IH last f Hl Hf).
+      destruct (with_table_at last ptl false f) as [[last' x]| |]; try exact I. destruct IH as (N1 & N2 & N3 & N4).
+      cbn [cres_post]. unfold wpost. rewrite span_set_items, dotted_set_items. repeat split; auto.
+      rewrite tnestH_set_items. apply andb_true_iff. split.
+      * eapply tflags_keep; [exact F1'|]. intro Nv. eapply no_values_set; eauto.
+      * eapply fb_set; [exact F2'|exact G|]. unfold tnH1; cbn [snd]. apply andb4. repeat split.
+        -- rewrite (map_span_rev_last last last' rinit N2), <- Rv, rev_involutive. exact A1.
+        -- unfold aot_end_ok in *. destruct asp; [lia|reflexivity].
+        -- rewrite forallb_rev. cbn [forallb]. rewrite N3. rewrite <- forallb_rev, Rv in A3. exact A3.
+        -- rewrite forallb_rev. cbn [forallb]. rewrite N1. cbn [andb]. revert Hri. apply forallb_Forall_imp.
+           apply Forall_forall. intros t0 _. apply tnestH_mono, Hle.
+  - specialize (IH (Tbl [] decor_default true false None None) f eq_refl Hf).
+    destruct (with_table_at _ ptl false f) as [[sub' x]| |]; try exact I. destruct IH as (N1 & N2 & N3 & N4).
+    cbn [cres_post]. unfold wpost. rewrite span_set_items, dotted_set_items. repeat split; auto.
+    rewrite tnestH_set_items. apply andb_true_iff. split.
+    + eapply tflags_keep; [exact F1'|]. intro Nv. apply no_values_push; [exact Nv|reflexivity].
+    + apply fb_push; [exact F2'|]. unfold tnH1; cbn [snd]. exact N1.
+Qed.
+
+(* ---- finalize_table -------------------------------------------------------------------------------------------------------- *)
+Lemma f_fin_std_nest h k table parent :
+  tnestH h table = true -> tnestH h parent = true -> cres_post (wpost h (fun _ : unit => True) parent) (f_fin_std k table parent).
+Proof.
+  intros Ht Hp. rewrite tnestH_unfold in Hp. apply andb_true_iff in Hp as [F1 F2]. unfold f_fin_std.
+  destruct (kv_get (t_items parent) (k_key k)) as [[k0 it]|] eqn:G.
+  - destruct it as [|v|t|ts sp]; try exact I. destruct (t_implicit t); [|exact I]. cbn [cres_post]. unfold wpost.
+    rewrite span_set_items, dotted_set_items. repeat split; auto. rewrite tnestH_set_items. apply andb_true_iff. split.
+    + eapply tflags_keep; [exact F1|]. intro Nv. eapply no_values_set; eauto.
+    + eapply fb_set; [exact F2|exact G|]. unfold tnH1; cbn [snd]. exact Ht.
+  - cbn [cres_post]. unfold wpost. rewrite span_set_items, dotted_set_items. repeat split; auto.
+    rewrite tnestH_set_items. apply andb_true_iff. split.
+    + eapply tflags_keep; [exact F1|]. intro Nv. apply no_values_push; [exact Nv|reflexivity].
+    + apply fb_push; [exact F2|]. unfold tnH1; cbn [snd]. exact Ht.
+Qed.
+
+Lemma aot_single a b : (a <= b)%N -> aot_nest [Some (a, b)] (Some (a, b)) = true.
+Proof. intro H. cbn [aot_nest forallb osp_in]. rewrite N.eqb_refl, (sp_in_pair a b a b) by lia. reflexivity. Qed.
+
+(* the finished table (span (a, b), b <= p) joins an array of tables whose span ends at or before a *)
+Lemma f_fin_aot_nest a b p k table parent : (a <= b)%N -> (b <= p)%N ->
+  tnestH p table = true -> t_span table = Some (a, b) -> t_dotted table = false ->
+  tnestH a parent = true -> cres_post (wpost p (fun _ : unit => True) parent) (f_fin_aot k table parent).
+Proof.
+  intros Hab Hbp Ht S Hd Hp. assert (Hap : (a <= p)%N) by lia.
+  pose proof (tnestH_mono a p Hap parent Hp) as Hp'. rewrite tnestH_unfold in Hp, Hp'.
+  apply andb_true_iff in Hp as [F1 F2]. apply andb_true_iff in Hp' as [F1' F2']. unfold f_fin_aot.
+  destruct (kv_get (t_items parent) (k_key k)) as [[k0 it]|] eqn:G.
+  - pose proof (fb_get _ _ _ _ _ F2 G) as Hit. destruct it as [|v|t|ts asp]; try exact I. cbv zeta.
+    unfold tnH1 in Hit; cbn [snd] in Hit. apply andb4 in Hit as (A1 & A2 & A3 & A4).
+    cbn [cres_post]. unfold wpost. rewrite span_set_items, dotted_set_items. repeat split; auto.
+    rewrite tnestH_set_items. apply andb_true_iff. split.
+    + eapply tflags_keep; [exact F1'|]. intro Nv. eapply no_values_set; eauto.
+    + eapply fb_set; [exact F2'|exact G|]. unfold tnH1; cbn [snd].
+      assert (T4 : forallb (tnestH p) (ts ++ [table]) = true).
+      { rewrite forallb_app. cbn [forallb]. rewrite Ht, andb_true_r. revert A4. apply forallb_Forall_imp.
+        apply Forall_forall. intros t0 _. apply tnestH_mono, Hap. }
+      assert (T3 : forallb (fun e => negb (t_dotted e)) (ts ++ [table]) = true).
+      { rewrite forallb_app, A3. cbn [forallb]. rewrite Hd. reflexivity. }
+      destruct ts as [|first tl].
+      * cbn [app map]. rewrite S. cbn [union_span fst snd]. apply andb4. repeat split; auto.
+        -- apply aot_single, Hab.
+        -- unfold aot_end_ok; cbn [snd]. lia.
+      * cbn [app]. cbn [map] in A1. destruct asp as [[a0 b0]|]; [|discriminate A1].
+        cbn [aot_nest] in A1. destruct (t_span first) as [[x y]|] eqn:Sf; [|discriminate A1].
+        apply andb_true_iff in A1 as [X1 X2]. apply N.eqb_eq in X1. subst x.
+        unfold aot_end_ok in A2; cbn [snd] in A2. cbn [forallb] in X2. apply andb_true_iff in X2 as [X2 X3].
+        cbn [osp_in] in X2. unfold sp_in in X2; cbn [fst snd] in X2.
+        rewrite S. cbn [union_span fst snd]. apply andb4. repeat split; auto.
+        -- cbn [map aot_nest]. rewrite Sf, N.eqb_refl. cbn [andb forallb osp_in].
+           rewrite (sp_in_pair a0 b a0 y) by lia. cbn [andb]. rewrite map_app, forallb_app. cbn [map forallb].
+           rewrite S. cbn [osp_in]. rewrite (sp_in_pair a0 b a b) by lia. rewrite andb_true_r.
+           revert X3. apply forallb_Forall_imp. apply Forall_forall. intros o _. apply osp_in_mono; lia.
+        -- unfold aot_end_ok; cbn [snd]. lia.
+  - cbn [cres_post]. unfold wpost. rewrite span_set_items, dotted_set_items. repeat split; auto.
+    rewrite tnestH_set_items. apply andb_true_iff. split.
+    + eapply tflags_keep; [exact F1'|]. intro Nv. apply no_values_push; [exact Nv|reflexivity].
+    + apply fb_push; [exact F2'|]. unfold tnH1; cbn [snd]. rewrite S. cbn [union_span fst snd map forallb].
+      rewrite S, Hd, Ht. cbn [negb andb]. rewrite (aot_single a b Hab). unfold aot_end_ok; cbn [snd andb].
+      rewrite andb_true_r. lia.
+Qed.
+
+Lemma finalize_nest p st st' :
+  st_in p st -> st_nest st -> finalize_table st = COk st' -> tnestH p (st_root st') = true.
+Proof.
+  intros (a0 & b0 & S0 & I1 & I2 & _) (a & b & S & Hr & Hc & Hd & Hi) E.
+  rewrite S in S0. inversion S0; subst a0 b0. clear S0. assert (Hap : (a <= p)%N) by lia.
+  destruct st as [root tr posn cur ia path]. cbn [st_current st_root st_trailing st_path] in *.
+  pose proof (tnestH_mono a p Hap cur Hc) as Hc'.
+  destruct (pop_key path) as [[ppath k]|] eqn:P.
+  - rewrite (finalize_eq _ _ _ _ _ _ _ _ P) in E.
+    assert (W : cres_post (wpost p (fun _ : unit => True) root)
+                          (with_table_at root ppath false (if ia then f_fin_aot k cur else f_fin_std k cur))).
+    { apply (wta_nest a p (fun _ : unit => True) Hap); [exact Hr|]. intros parent Hpar. destruct ia.
+      - apply (f_fin_aot_nest a b p); assumption.
+      - apply f_fin_std_nest; [exact Hc'|]. apply (tnestH_mono a p Hap), Hpar. }
+    destruct (with_table_at root ppath false _) as [[root' u]| |]; try discriminate E. inversion E; subst st'.
+    cbn [cres_post] in W. cbn [st_root]. apply W.
+  - unfold finalize_table in E. cbn [st_current st_root st_trailing st_path st_is_array st_position] in E. rewrite P in E.
+    destruct (tbl_is_empty root); [|discriminate]. inversion E; subst st'. cbn [st_root]. exact Hc'.
+Qed.
+
+(* ---- start_table / start_array_table ------------------------------------------------------------------------------------------ *)
+Lemma start_nest (ia : bool) p e st path dec st' :
+  tnestH p (st_root st) = true -> st_current st = tbl_new ->
+  (if ia then start_array_table st path dec (p, e) else start_table st path dec (p, e)) = COk st' -> st_nest st'.
+Proof.
+  intros Hr Hc E. destruct ia.
+  - unfold start_array_table in E. destruct (negb _); [discriminate|]. destruct (st_path st); [|discriminate].
+    destruct (pop_key path) as [[ppath k]|] eqn:P; [|discriminate].
+    match type of E with context [with_table_at _ ppath false ?f] =>
+      pose proof (wta_nest p p (fun _ : unit => True) (N.le_refl _) ppath (st_root st) f Hr) as W end.
+    match type of W with ?B -> _ => assert (X2 : B); [|specialize (W X2)] end.
+    { intros parent Hpar. pose proof Hpar as Hpar0. rewrite tnestH_unfold in Hpar. apply andb_true_iff in Hpar as [F1 F2].
+      destruct (kv_get (t_items parent) (k_key k)) as [[k0 it]|].
+      - destruct it; try exact I. cbn [cres_post]. unfold wpost. auto.
+      - cbn [cres_post]. unfold wpost. rewrite span_set_items, dotted_set_items. repeat split; auto.
+        rewrite tnestH_set_items. apply andb_true_iff. split.
+        + eapply tflags_keep; [exact F1|]. intro Nv. apply no_values_push; [exact Nv|reflexivity].
+        + apply fb_push; [exact F2|]. reflexivity. }
+    match type of E with match ?r with _ => _ end = _ => destruct r as [[root' u]| |]; try discriminate E end.
+    inversion E; subst st'. cbn [cres_post] in W. destruct W as (W & _). unfold open_table.
+    exists p, e. cbn [st_current st_root t_span t_dotted t_implicit]. rewrite Hc. cbn [t_items tbl_new]. repeat split; auto.
+  - unfold start_table in E. destruct (negb _); [discriminate|]. destruct (st_path st); [|discriminate].
+    destruct (pop_key path) as [[ppath k]|] eqn:P; [|discriminate].
+    match type of E with context [with_table_at _ ppath false ?f] =>
+      pose proof (wta_nest p p (fun x : option tbl => match x with
+                                                      | Some t => tnestH p t = true /\ t_implicit t = true /\ t_dotted t = false
+                                                      | None => True end)
+                           (N.le_refl _) ppath (st_root st) f Hr) as W end.
+    match type of W with ?B -> _ => assert (X2 : B); [|specialize (W X2)] end.
+    { intros parent Hpar. pose proof Hpar as Hpar0. rewrite tnestH_unfold in Hpar. apply andb_true_iff in Hpar as [F1 F2].
+      destruct (kv_get (t_items parent) (k_key k)) as [[k0 it]|] eqn:G; [|cbn [cres_post]; unfold wpost; auto].
+      pose proof (fb_get _ _ _ _ _ F2 G) as Hit.
+      destruct it as [|v|t|ts sp]; try exact I. destruct (t_implicit t) eqn:Im; cbn [andb]; [|exact I].
+      destruct (t_dotted t) eqn:Dt; cbn [negb]; [exact I|].
+      cbn [cres_post]. unfold wpost. rewrite span_set_items, dotted_set_items. repeat split; auto.
+      rewrite tnestH_set_items. apply andb_true_iff. split.
+      - eapply tflags_keep; [exact F1|]. intro Nv. apply (fb_remove (fun kv => negb (is_value (snd kv)))), Nv.
+      - apply fb_remove, F2. }
+    match type of E with match ?r with _ => _ end = _ => destruct r as [[root' tk]| |]; try discriminate E end.
+    inversion E; subst st'. cbn [cres_post] in W. destruct W as (W & _ & _ & Wt). unfold open_table.
+    exists p, e. cbn [st_current st_root t_span t_dotted t_implicit]. repeat split; auto.
+    destruct tk as [t|].
+    + destruct Wt as (T1 & T2 & T3). rewrite tnestH_unfold in T1. apply andb_true_iff in T1 as [G1 G2].
+      unfold tflags in G1. rewrite T2, T3 in G1. cbn [negb andb orb] in G1. apply andb_true_iff in G1 as [_ G1].
+      rewrite tnestH_unfold. cbn [t_items t_span t_dotted t_implicit]. unfold tflags. cbn [t_dotted t_implicit negb andb orb].
+      apply forallb_Forall. apply forallb_Forall in G2. unfold no_values in G1. apply forallb_Forall in G1.
+      revert G2. apply Forall_impl2 with (1 := G1). intros kv Nv Hkv.
+      rewrite (tnH1_novalue p (Some (p, e)) (t_span t) kv); [exact Hkv|]. destruct (is_value (snd kv)); [discriminate Nv|reflexivity].
+    + rewrite Hc. reflexivity.
+Qed.
+
+Lemma on_header_nest (ia : bool) p e st path trailing st' :
+  st_in p st -> st_nest st -> on_header ia st path trailing (p, e) = COk st' -> st_nest st'.
+Proof.
+  intros Hst Hn E. unfold on_header in E. destruct path as [|k0 ptl] eqn:Ep; [discriminate|]. rewrite <- Ep in *.
+  destruct (finalize_table st) as [st1| |] eqn:F; try discriminate E.
+  pose proof (finalize_nest _ _ _ Hst Hn F) as Hr. destruct (finalize_in _ _ _ Hst F) as (_ & _ & Hc & _).
+  unfold take_trailing in E. eapply (start_nest ia p e); [| |exact E]; cbn [st_root st_current]; assumption.
+Qed.
